@@ -8,7 +8,9 @@
 //! sossim run-plan <plan.json> <dir>                    (child)
 
 mod acct;
+mod alloc;
 mod authw;
+mod bytesw;
 mod common;
 mod crash;
 mod device;
@@ -23,6 +25,9 @@ mod tamper;
 mod registry;
 mod rng;
 mod runner;
+
+#[global_allocator]
+static GLOBAL: alloc::Counting = alloc::Counting;
 
 use common::*;
 use std::path::{Path, PathBuf};
@@ -64,6 +69,7 @@ fn execute(plan: Plan, dir: &Path) -> RunOutcome {
             "acct" => acct::execute(plan, &dir).await,
             "netw" => netw::execute(plan, &dir).await,
             "crash" => crash::execute(plan, &dir).await,
+            "bytes" => bytesw::execute(plan, &dir).await,
             other => panic!("unknown family {other}"),
         }
     });
@@ -76,6 +82,7 @@ fn generate(family: &str, property: &str, seed: u64, tier: Tier) -> Plan {
         "acct" => acct::generate(property, seed, tier),
         "netw" => netw::generate(property, seed, tier),
         "crash" => crash::generate(property, seed, tier),
+        "bytes" => bytesw::generate(property, seed, tier),
         other => panic!("unknown family {other}"),
     }
 }
